@@ -224,6 +224,18 @@ unsafe impl Sync for Shared {}
 unsafe impl Send for Shared {}
 
 /// Run a real pool: `threads` dispatcher threads feed `lanes` (each lane in order), then sentinels.
+pub fn run_pool_measured(kind: Kind, n: usize, queue: usize, batch: usize, timeout_ms: u64, max_conn: usize, lanes: Vec<Vec<Vec<u8>>>, r: &mut Rng) -> (bool, u64) {
+    MEASURE.with(|m| m.set(true));
+    let run = run_pool(kind, n, queue, batch, timeout_ms, max_conn, lanes, r);
+    MEASURE.with(|m| m.set(false));
+    (run.timed_out, LIVE_AT_QUIESCENCE.with(|l| l.get()))
+}
+
+thread_local! {
+    static MEASURE: std::cell::Cell<bool> = const { std::cell::Cell::new(false) };
+    static LIVE_AT_QUIESCENCE: std::cell::Cell<u64> = const { std::cell::Cell::new(0) };
+}
+
 pub fn run_pool(kind: Kind, n: usize, queue: usize, batch: usize, timeout_ms: u64, max_conn: usize, lanes: Vec<Vec<Vec<u8>>>, r: &mut Rng) -> PoolRun {
     freeze_clock();
     let sentinels = sentinel_sources(kind, n, r);
@@ -311,6 +323,9 @@ pub fn run_pool(kind: Kind, n: usize, queue: usize, batch: usize, timeout_ms: u6
                 }
             }
         }
+    }
+    if MEASURE.with(|m| m.get()) {
+        LIVE_AT_QUIESCENCE.with(|l| l.set(crate::alloc::snapshot().1));
     }
     let (dispatched, dropped, wdropped) = shared.0.stats();
     shared.0.shutdown();
@@ -526,6 +541,173 @@ fn run_pcap(ctx: &mut Ctx) {
             l.usize(seq.len());
             l.text(&group(&seq));
             let out = if to { "TIMEOUT".to_string() } else { format!("{} {}", par.len(), group(&par)) };
+            ctx.emit(l.finish(&out));
+        }
+    }
+    let _ = std::fs::remove_dir_all(&dir);
+}
+
+/// C15 in parallel mode: the analyzers' own `with_config` + `with_filter` + `init_pool` + `analyze_pcap`
+/// path against their sequential filtered path on the same capture (called from the C15 module).
+/// The capture is long enough for a backlog to exist when `analyze_pcap` calls `shutdown()`.
+pub fn run_pcap_filtered(ctx: &mut Ctx) {
+    let mut r = ctx.rng.fork();
+    let dir = std::env::temp_dir().join(format!("hvh-c15p-{}", std::process::id()));
+    std::fs::create_dir_all(&dir).unwrap();
+    let rounds = ctx.n(6, 60);
+    for k in 0..rounds {
+        for kind in [Kind::Tcp, Kind::Http, Kind::Tls] {
+            freeze_clock();
+            let mut conns: Vec<Conn> = vec![];
+            // every other round: a long capture, so that a backlog exists in the worker queues when
+            // analyze_pcap reaches its end and calls shutdown()
+            let batches = if k % 2 == 0 { 6 } else { 120 };
+            for _ in 0..batches {
+                conns.extend(conns_for(kind, &mut r));
+            }
+            // distinct 4-tuples only
+            let mut uniq: Vec<Conn> = vec![];
+            for c in conns {
+                if !uniq.iter().any(|x| (x.client == c.client && x.server == c.server) || (x.client == c.server && x.server == c.client)) {
+                    uniq.push(c);
+                }
+            }
+            let conns = uniq;
+            let order = interleave(&mut r, &conns);
+            let mut frames: Vec<Vec<u8>> = order.iter().map(|&(c, i)| net::eth_bytes(&conns[c].segs[i])).collect();
+            // odd rounds, HTTP: put a slow-to-analyse admitted flow first (a 48 KiB request head in 96-byte segments:
+            // the flow is re-assembled and re-parsed on every segment), so that the rest of the capture is still
+            // queued when analyze_pcap ends
+            let mut slow_port: Option<u16> = None;
+            if k % 2 == 1 && kind == Kind::Http {
+                let c = (net::v4(0x0a77_0001), 47000);
+                let s = (net::v4(0x0a77_0002), 8088);
+                let mut head = b"GET /slow HTTP/1.1\r\nHost: slow\r\n".to_vec();
+                while head.len() < 48 * 1024 {
+                    head.extend_from_slice(format!("X-Pad-{}: {}\r\n", head.len(), "p".repeat(60)).as_bytes());
+                }
+                head.extend_from_slice(b"\r\n");
+                let mut pre = vec![net::eth_bytes(&Seg::new(c, s, SYN))];
+                let mut seq = 1001u32;
+                for chunk in head.chunks(96) {
+                    let mut g = Seg::new(c, s, ACK | PSH);
+                    g.seq = seq;
+                    seq = seq.wrapping_add(chunk.len() as u32);
+                    g.payload = chunk.to_vec();
+                    pre.push(net::eth_bytes(&g));
+                }
+                pre.extend(frames);
+                frames = pre;
+                slow_port = Some(8088);
+            }
+            let path = dir.join(format!("f{k}.pcap"));
+            write_pcap(&path, &frames);
+            let ps = path.to_str().unwrap();
+            // a filter that splits the trace: one of the server ports in use
+            let port = slow_port.unwrap_or(conns[r.below(conns.len() as u64) as usize].server.1);
+            let deny = if slow_port.is_some() { false } else { r.chance(1, 2) };
+            let n = if k % 2 == 0 { *r.pick(&[1usize, 2, 4]) } else { 1 };
+            let q = frames.len() + 16;
+            macro_rules! filt {
+                ($k:ident) => {{
+                    let f = $k::FilterConfig::new().with_port_filter($k::PortFilter::new().destination(port));
+                    if deny {
+                        f.mode($k::FilterMode::Deny)
+                    } else {
+                        f
+                    }
+                }};
+            }
+            let (seq, par, to) = match kind {
+                Kind::Tcp => {
+                    let (tx, rx) = mpsc::channel();
+                    let mut a = huginn_net_tcp::HuginnNetTcp::new(None, 1000).unwrap().with_filter(filt!(huginn_net_tcp));
+                    let _ = a.analyze_pcap(ps, tx, None);
+                    drop(a);
+                    let (seq, t1) = drain(rx, tcp_kd);
+                    let (tx, rx) = mpsc::channel();
+                    let mut a = huginn_net_tcp::HuginnNetTcp::with_config(None, 1000, n, q, 8, 5).unwrap().with_filter(filt!(huginn_net_tcp));
+                    a.init_pool(tx.clone()).unwrap();
+                    let _ = a.analyze_pcap(ps, tx, None);
+                    drop(a);
+                    let (par, t2) = drain(rx, tcp_kd);
+                    (seq, par, t1 || t2)
+                }
+                Kind::Http => {
+                    let (tx, rx) = mpsc::channel();
+                    let mut a = huginn_net_http::HuginnNetHttp::new(None, 1000).unwrap().with_filter(filt!(huginn_net_http));
+                    let _ = a.analyze_pcap(ps, tx, None);
+                    drop(a);
+                    let (seq, t1) = drain(rx, http_kd);
+                    let (tx, rx) = mpsc::channel();
+                    let mut a = huginn_net_http::HuginnNetHttp::with_config(None, 1000, n, q, 8, 5).unwrap().with_filter(filt!(huginn_net_http));
+                    a.init_pool(tx.clone()).unwrap();
+                    let _ = a.analyze_pcap(ps, tx, None);
+                    drop(a);
+                    let (par, t2) = drain(rx, http_kd);
+                    (seq, par, t1 || t2)
+                }
+                Kind::Tls => {
+                    let (tx, rx) = mpsc::channel();
+                    let mut a = huginn_net_tls::HuginnNetTls::new(1000).with_filter(filt!(huginn_net_tls));
+                    let _ = a.analyze_pcap(ps, tx, None);
+                    drop(a);
+                    let (seq, t1) = drain(rx, tls_kd);
+                    let (tx, rx) = mpsc::channel();
+                    let mut a = huginn_net_tls::HuginnNetTls::with_config(n, q, 8, 5).with_filter(filt!(huginn_net_tls));
+                    a.init_pool(tx.clone()).unwrap();
+                    let _ = a.analyze_pcap(ps, tx, None);
+                    drop(a);
+                    let (par, t2) = drain(rx, tls_kd);
+                    (seq, par, t1 || t2)
+                }
+            };
+            let _ = std::fs::remove_file(&path);
+            let mut l = Line::op("C15.par");
+            l.tok(kind.name()).usize(n).nat(port).bool(deny).usize(frames.len());
+            l.usize(seq.len());
+            l.text(&group(&seq));
+            let out = if to { "TIMEOUT".to_string() } else { format!("{} {}", par.len(), group(&par)) };
+            ctx.emit(l.finish(&out));
+            // the pool API itself: dispatch everything, call shutdown() at once (a backlog is still queued), collect
+            // until the workers have exited; what was queued must be analysed WITH the filter
+            let (par2, to2) = match kind {
+                Kind::Tcp => {
+                    let (tx, rx) = mpsc::channel();
+                    let pool = huginn_net_tcp::WorkerPool::new(n, q, 8, 5, tx, None, 1000, Some(filt!(huginn_net_tcp))).unwrap();
+                    for f in &frames {
+                        let _ = pool.dispatch(f.clone());
+                    }
+                    pool.shutdown();
+                    drop(pool);
+                    drain(rx, tcp_kd)
+                }
+                Kind::Http => {
+                    let (tx, rx) = mpsc::channel();
+                    let pool = huginn_net_http::WorkerPool::new(n, q, 8, 5, tx, None, 1000, Some(filt!(huginn_net_http))).unwrap();
+                    for f in &frames {
+                        let _ = pool.dispatch(f.clone());
+                    }
+                    pool.shutdown();
+                    drop(pool);
+                    drain(rx, http_kd)
+                }
+                Kind::Tls => {
+                    let (tx, rx) = mpsc::channel();
+                    let pool = huginn_net_tls::WorkerPool::new(n, q, 8, 5, tx, 1000, Some(filt!(huginn_net_tls))).unwrap();
+                    for f in &frames {
+                        let _ = pool.dispatch(f.clone());
+                    }
+                    pool.shutdown();
+                    drop(pool);
+                    drain(rx, tls_kd)
+                }
+            };
+            let mut l = Line::op("C15.par");
+            l.tok(&format!("{}-shutdown", kind.name())).usize(n).nat(port).bool(deny).usize(frames.len());
+            l.usize(seq.len());
+            l.text(&group(&seq));
+            let out = if to2 { "TIMEOUT".to_string() } else { format!("{} {}", par2.len(), group(&par2)) };
             ctx.emit(l.finish(&out));
         }
     }
